@@ -23,7 +23,8 @@ from liquid2 import DictLoader
 from liquid2.exceptions import LiquidError
 from liquid2.shopify import Environment as ShopifyEnvironment
 
-CFG = Cfg(wc_rate=0.2, shopify=True, tablerow=True, confusion=0.08, budget=12, max_depth=3)
+CFG = Cfg(wc_rate=0.2, shopify=True, tablerow=True, confusion=0.08, budget=12, max_depth=3, indirect_root=True,
+          huge_floats=True, spaced_names=True)
 
 SPECIAL_STRINGS = st.one_of(
     st.sampled_from(["a'b", 'a"b', "a\\b", "${x}", "a${", "\x08", "\x0c\n\t\r", "😀", "日本", "\x7f", "\u2028",
